@@ -39,7 +39,7 @@ TASK: produce THREE INDEPENDENT changes (numbered 1, 2, 3), each of which alone 
 4. Then append a demonstration `#[cfg(test)] mod demo_{low}_k {{ use super::*; ... }}` at the END of src/bin/mstsc-rs.rs (the binary's functions are private) and run it with `cargo test --offline --features mstsc-rs --bin mstsc-rs demo_{low}_k` (add RUSTFLAGS if you use the hooks, and say so). It must FAIL with change k and PASS without it: to check the latter, `git -C {wt} apply -R /tmp/{pid}{n}-change-k.patch`, run, then re-apply. Save the demo module alone as a patch against the CLEAN tree: with the change reversed, `git -C {wt} diff -- src/bin/mstsc-rs.rs > /tmp/{pid}{n}-demo-k.patch`.
 When all three are done: `git -C {wt} checkout -- src` and `rm -rf {wt}/target`.
 
-STYLE for this round: think like a protocol tester rather than a code reader. Pick three DIFFERENT legal-but-unusual behaviours of the peer or of the API user that the specifications (MS-RDPBCGR, T.125/T.124, MS-NLMP, MS-CSSP, X.690/X.691) or the public API allow — an optional field present or absent, a legal flag combination nobody sets, a value at the edge of its legal range, a size at a power of two or a multiple of an internal block size, an object used a second time, two operations in the opposite order, an empty or a maximal collection, a message arriving earlier or later than usual — and make the client handle each one wrongly by a small plausible change. The ideas listed below show what has been tried; do not vary them: find behaviours none of them relies on. At least one of the three must need a SEQUENCE of two or more operations or messages (not one input) to show.
+STYLE for this round: two conditions at once, and what happens after something went wrong. Make each bug need the COINCIDENCE of two things that are each common on their own — two settings of the configuration, a setting and a property of the peer's message, a message kind and the state the object is in, a size and an alignment, a flag of the header and a length form, a feature and an error — so that testing each condition alone (or all single deviations from a default) shows nothing. Good places: code shared by two paths where one caller passes a slightly different argument; an `if a && b` that should be `a || b` or the reverse; a default that is only right when another option has its default too; a clean-up or error path that leaves half-updated state which only matters if the caller continues; a value computed before an adjustment and used after it; a bound checked against one field and applied to another; handling that is correct for the first element of a list but not for later ones; something that only differs for the LAST element / the last byte of a block. At least one of your three changes must be on an error / refusal / early-return path (what the object does AFTER it returned an error once, or after the peer refused something), and at least one must need a pair of non-default settings or message features together.
 
 These ideas have ALREADY been used for this property — do something different: {' | '.join(used) if used else '(none)'}
 {"One weakness was known and has been repaired already (the thread used to poll the raw socket while a decrypted PDU was buffered in the TLS layer; has_pending_data() now covers it) - re-breaking exactly that by deleting the has_pending_data() call is too obvious; be subtler." if pid == "C20" else ""}
